@@ -786,3 +786,45 @@ def msgtype_tables_by_cases(F):
     except Exception:
         to_type = None
     return to_name, to_type
+
+
+def metatype_registered(ck, F, rid):
+    """LogMessage is a registered meta-type, under the name moc records for the signal's parameter, on every path of a constructor every logger goes through"""
+    from engine.cfg import Graph
+
+    def json_dumps_small(n):
+        return " ".join(str(n.get(k, "")) for k in ("callee", "sig", "type", "fn"))
+    regs = []
+    for f_ in F.fns.values():
+        if f_.body is None or not in_lib(f_.file):
+            continue
+        for n_ in f_.calls():
+            if "qRegisterMetaType" in (n_.get("callee") or "") and "LogMessage" in (n_.get("callee") or "") + (n_.get("sig") or "") + (n_.get("type") or "") + json_dumps_small(n_):
+                regs.append((f_, n_))
+    ok_reg = []
+    for f_, n_ in regs:
+        ctor = f_.d.get("kind") == "ctor" and (strip_tmpl(f_.cls or "") == OT or (f_.cls or "").endswith("SignalSink"))
+        g_ = Graph(f_)
+        site = g_.site_of(n_)
+        if site is None:
+            for a_ in f_.ancestors(n_):
+                if a_.get("k") == "decl" and g_.site_of(a_) is not None:
+                    site = g_.site_of(a_)
+                    break
+        if ctor and site is not None and g_.must_pass({site}):
+            ok_reg.append(f_)
+    if not regs:
+        ck.ob(rid, "src/qtlogger", False, "LogMessage is never registered as a meta-type: SignalSink cannot deliver across threads", key="metatype|unregistered")
+    else:
+        f0, n0 = regs[0]
+        ck.ob(rid, sitestr(f0, n0), bool(ok_reg), "LogMessage is registered as a meta-type in %s, on every path" % ok_reg[0].name.split("::")[-1] if ok_reg else
+              "LogMessage is registered as a meta-type only in %s: a synchronous logger whose SignalSink receiver lives in another thread drops the messages of every other thread "
+              "(Qt cannot queue the argument)" % sorted({f_.name.split("::")[-1] for f_, _ in regs}), key="metatype|registered-late")
+    # ... and under the name Qt looks up: moc records the parameter of SignalSink::message() as "QtLogger::LogMessage"; a registration with another spelling
+    # (qRegisterMetaType<LogMessage>("LogMessage")) registers a type that a queued connection never asks for
+    for f_, n_ in regs:
+        names = [const_str(a_) for a_ in n_.get("args", []) if a_.get("k") != "defaultarg" and const_str(a_) is not None]
+        odd = [x for x in names if x.replace("::QtLogger::", "QtLogger::") != "QtLogger::LogMessage"]
+        ck.ob(rid, sitestr(f_, n_), not odd, "registered under the type's own name" if not odd else
+              "LogMessage is registered as %r only: a queued signal asks for \"QtLogger::LogMessage\" (the spelling moc records), finds nothing and the message is dropped with "
+              "'Cannot queue arguments'" % odd[0], key="metatype|name")
